@@ -45,6 +45,7 @@ def sort_of(k):
     if k == 'bool': return B
     if k == 'real': return R
     if k == 'tok': return Tok
+    if k == 'strline': return StrLine
     if k == 'optint': return Opt
     if k == 'py': return Py
     if k == 'crit': return Crit
@@ -168,6 +169,10 @@ class VLine(V):
 Text = z3.Datatype('Text')
 Text.declare('mk', ('nlines', I), ('ntok', z3.ArraySort(I, I)), ('tok', z3.ArraySort(I, z3.ArraySort(I, Tok))), ('colon', z3.ArraySort(I, B)))
 Text = Text.create()
+
+
+# A short string of a fixed template with up to three integer holes (one line of a listing): tpl = template id (0 = the empty string)
+StrLine = z3.Datatype('StrLine'); StrLine.declare('mk', ('tpl', I), ('a0', I), ('a1', I), ('a2', I)); StrLine = StrLine.create()
 
 
 class VText(V):
